@@ -138,6 +138,38 @@ def run(ctx):
             want = "ls:%s:%s" % (_m.hexor(n) if make_active else "-", "" if make_active else _m.hexor(n))
             if ("res=" + want) not in lst:
                 viol.append({"op": "listscripts", "what": "listing after the rename differs from the server's state: %s, want %s" % (lst[:80], want)})
+    # directed sessions: a call the CLIENT ITSELF refuses, nothing sent (CHECKSCRIPT on a server without VERSION, a script text
+    # that cannot be encoded, a call with the wrong number of arguments) — the session goes on as before: the next calls are
+    # answered by the server and the view stays correct
+    for refusal in ("checkscript-no-version", "lone-surrogate", "bad-arguments"):
+        for follow in ("listscripts", "getscript", "putscript"):
+            srv = _rs.RefServer(r, scripts={b"a": b"keep;\r\n", b"b": b"stop;\r\n"}, active=b"a", version=(refusal != "checkscript-no-version"))
+            ses = _m.Session()
+            ses.connect(b"", [], "user", "pw", server=srv)
+            nw = len(ses.wire.writes)
+            if refusal == "checkscript-no-version":
+                o0 = ses.op("checkscript", "keep;")
+            elif refusal == "lone-surrogate":
+                o0 = ses.op("putscript", "c", "keep; # \udc80")
+            else:
+                o0 = ses.call(lambda: ses.client.putscript("only-a-name"))
+            wrote = len(ses.wire.writes) - nw
+            evals += 2
+            nontriv += 1
+            if follow == "listscripts":
+                o1 = ses.op("listscripts")
+                ok = ("res=ls:%s:%s" % (_m.hexor(b"a"), _m.hexor(b"b"))) in o1
+            elif follow == "getscript":
+                o1 = ses.op("getscript", "b")
+                ok = o1.split(" ")[0] in ("res=s:" + b"stop;\r\n".hex(), "res=s:" + b"stop;\n".hex(), "res=s:" + b"stop;".hex())
+            else:
+                o1 = ses.op("putscript", "d", "discard;")
+                ok = "res=b1" in o1 and b"d" in srv.scripts
+            if wrote == 0 and not ok:
+                viol.append({"op": follow, "what": "after a call the client refused by itself (%s: %s, nothing sent), %s gives %s — the server would have answered normally" % (
+                    refusal, o0.split(" ")[0], follow, o1[:80]), "history": [refusal]})
+            if srv.log:
+                viol.append({"op": follow, "what": "server protocol log %r" % srv.log, "history": [refusal]})
     # directed sessions: names the client must send as literals (a line break or NUL inside) that also hold multi-byte characters —
     # store, fetch, activate and delete under such a name, then a command that must still find the connection in step
     for nm in ("été\nhiver", "r\r\nésumé", "nul\0é€", "\n€", "plain\nascii"):
